@@ -804,3 +804,458 @@ Section CleanupLog.
       + rewrite Hg in Hcb. destruct Hcb.
   Qed.
 End CleanupLog.
+
+(** * descendants first *)
+Definition nd (c : core) : Prop := NoDup (cids (clog c) ++ pending c).
+
+Lemma nd_conserve c c' : conserve c c' -> nd c -> nd c'.
+Proof. intros [P _] H. eapply Permutation_NoDup; [symmetry; exact P|exact H]. Qed.
+
+Lemma nd_pending c : nd c -> NoDup (pending c).
+Proof. apply NoDup_app_r. Qed.
+
+(** [cid1] was logged before [cid2]; [l] is newest first *)
+Definition logged_before (cid1 cid2 : nat) (l : list nat) : Prop :=
+  exists A B, l = A ++ B /\ In cid2 A /\ In cid1 B.
+
+Lemma logged_before_mid cid1 cid2 l3 l2 l1 :
+  logged_before cid1 cid2 l2 -> logged_before cid1 cid2 (l3 ++ l2 ++ l1).
+Proof.
+  intros (A & B & -> & H2 & H1). exists (l3 ++ A), (B ++ l1).
+  rewrite <- !app_assoc. split; [reflexivity|]. split; apply in_or_app; auto.
+Qed.
+
+(** a cleanup that was pending and no longer is has been logged in between *)
+Lemma logged_between x y l cid : conserve x y -> nd x -> clog y = l ++ clog x ->
+  In cid (pending x) -> ~ In cid (pending y) -> In cid (cids l).
+Proof.
+  intros [P _] Hnd E Hin Hout.
+  assert (H : In cid (cids (clog y) ++ pending y)).
+  { eapply Permutation_in; [symmetry; exact P|]. apply in_or_app. right. exact Hin. }
+  rewrite E, cids_app in H. apply in_app_or in H as [H|H]; [|contradiction].
+  apply in_app_or in H as [H|H]; [exact H|].
+  exfalso. exact (NoDup_app_disjoint _ _ Hnd cid H Hin).
+Qed.
+
+Lemma pending_of c p a cid : nth_error (owners c) p = Some a -> In cid (o_cleanups a) ->
+  In cid (pending c).
+Proof. intros. apply in_concat_map_nth. eauto. Qed.
+
+Lemma not_pending_if_gone c0 c1 r ar cid : NoDup (pending c0) -> mono c0 c1 ->
+  nth_error (owners c0) r = Some ar -> In cid (o_cleanups ar) -> gone_at c1 r ->
+  ~ In cid (pending c1).
+Proof.
+  intros Hnd M Hr Hc (b & Hb & (_ & _ & Hg)) Hin.
+  apply in_concat_map_nth in Hin as (p' & b' & Hb' & Hcb).
+  destruct (mono_owner_r _ _ _ _ M Hb') as (a' & Ha' & [->|((_ & _ & Hg') & _)]).
+  - assert (p' = r) by (eapply (NoDup_concat_unique o_cleanups (owners c0)); eauto). subst p'.
+    rewrite Hb in Hb'. inversion Hb'; subst. rewrite Hg in Hcb. destruct Hcb.
+  - rewrite Hg' in Hcb. destruct Hcb.
+Qed.
+
+(** along a path of the subtree: still intact afterwards, or its end has been emptied *)
+Lemma left_or_gone c0 c1 q r : mono c0 c1 -> closure c0 c1 -> sub c0 q r ->
+  (sub c1 q r /\ nth_error (owners c1) r = nth_error (owners c0) r) \/ gone_at c1 r.
+Proof.
+  intros M C H. induction H as [Ha|p a r Hs IH Hp Hr Ha].
+  - unfold alive in Ha. destruct (nth_error (owners c0) q) as [aq|] eqn:Hq; [|discriminate].
+    destruct (mono_owner _ _ _ _ M Hq) as (b & Hb & [->|(Hg & _)]).
+    + left. split; [|congruence]. apply sub_refl. unfold alive. rewrite Hb. exact Ha.
+    + right. exists b. auto.
+  - destruct IH as [(Hs1 & Ep)|(b & Hb & Hg)].
+    + unfold alive in Ha. destruct (nth_error (owners c0) r) as [ar|] eqn:Hq; [|discriminate].
+      destruct (mono_owner _ _ _ _ M Hq) as (b & Hb & [->|(Hg & _)]).
+      * left. split; [|congruence]. eapply sub_step; eauto; [congruence|].
+        unfold alive. rewrite Hb. exact Ha.
+      * right. exists b. auto.
+    + right. exact (proj1 (C p a b Hp Hb Hg) r Hr Ha).
+Qed.
+
+Lemma sub_owners_eq c c' o p : owners c' = owners c -> sub c o p -> sub c' o p.
+Proof.
+  intros E H. induction H as [Ha|p a q Hs IH Hp Hq Ha].
+  - apply sub_refl. unfold alive in *. rewrite E. exact Ha.
+  - eapply sub_step; eauto; unfold alive in *; rewrite E; auto.
+Qed.
+
+(** clearing [o] does not disturb a path that starts strictly below it *)
+Lemma sub_avoid c o dead q r : wfs c -> o < q -> sub c q r ->
+  sub (upd_owner o (clear_owner dead) c) q r /\
+  nth_error (owners (upd_owner o (clear_owner dead) c)) r = nth_error (owners c) r.
+Proof.
+  intros W Hlt H.
+  assert (Hsame : forall x, o < x ->
+            nth_error (owners (upd_owner o (clear_owner dead) c)) x = nth_error (owners c) x).
+  { intros x Hx. unfold upd_owner. cbn. apply nth_error_upd_other. lia. }
+  induction H as [Ha|p a r Hs IH Hp Hr Ha].
+  - split; [|apply Hsame; exact Hlt]. apply sub_refl. unfold alive. rewrite Hsame; auto.
+  - destruct IH as (Hs1 & Ep).
+    assert (Hqp : q <= p) by (eapply sub_ge; eauto).
+    destruct (ws_child c W p a r Hp Hr) as (Hpr & _).
+    split; [|apply Hsame; lia].
+    eapply sub_step; eauto; [rewrite Ep; exact Hp|]. unfold alive. rewrite Hsame by lia. exact Ha.
+Qed.
+
+Section Order.
+  (** the statement carried through the recursion *)
+  Definition order_ok (c c' : core) : Prop :=
+    forall l, clog c' = l ++ clog c ->
+    forall p a q r ar cid1 cid2,
+      nth_error (owners c) p = Some a -> In cid2 (o_cleanups a) -> gone_at c' p ->
+      In q (o_children a) -> alive c q = true -> sub c q r ->
+      nth_error (owners c) r = Some ar -> In cid1 (o_cleanups ar) ->
+      logged_before cid1 cid2 (cids l).
+
+  (** folding steps that each satisfy it *)
+  Lemma order_fold {X} (g : X -> core -> core) xs :
+    (forall x c, mono c (g x c)) ->
+    (forall x c, conserve c (g x c)) ->
+    (forall x c, err (g x c) = false -> closure c (g x c)) ->
+    (forall x c, wfs c -> nd c -> err (g x c) = false -> order_ok c (g x c)) ->
+    forall c, wfs c -> nd c -> err (fold_left (fun c x => g x c) xs c) = false ->
+    order_ok c (fold_left (fun c x => g x c) xs c).
+  Proof.
+    intros Hm Hk Hc Ho. induction xs as [|x xs IH]; intros c W Hnd He; cbn [fold_left] in *.
+    { unfold order_ok. intros l E p a q r ar cid1 cid2 Hp H2 Hgo _ _ _ _ _.
+      destruct Hgo as (b & Hb & (_ & _ & Hg)).
+      rewrite Hp in Hb. inversion Hb; subst. rewrite Hg in H2. destruct H2. }
+    set (c1 := g x c) in *. set (cF := fold_left (fun c x => g x c) xs c1) in *.
+    assert (M1 : mono c c1) by apply Hm.
+    assert (MF : mono c1 cF) by (apply mono_fold; exact Hm).
+    assert (K1 : conserve c c1) by apply Hk.
+    assert (KF : conserve c1 cF) by (apply conserve_fold; exact Hk).
+    assert (He1 : err c1 = false) by (eapply err_fold; eauto).
+    assert (C1 : closure c c1) by (apply Hc; exact He1).
+    assert (W1 : wfs c1) by (eapply wfs_mono; eauto).
+    assert (Hnd1 : nd c1) by (eapply nd_conserve; eauto).
+    intros l E p a q r ar cid1 cid2 Hp H2 HgF Hq Hal Hs Hr H1.
+    pose proof K1 as K1'. pose proof KF as KF'.
+    destruct K1 as [P1 (l1 & E1)]. destruct KF as [PF (lr & EF)].
+    assert (El : l = lr ++ l1).
+    { rewrite EF, E1, app_assoc in E. apply app_inv_tail in E. auto. }
+    subst l. rewrite cids_app.
+    destruct (mono_owner _ _ _ _ M1 Hp) as (b1 & Hb1 & [->|(Hg1 & _)]).
+    - (* p untouched by the first step *)
+      destruct (left_or_gone c c1 q r M1 C1 Hs) as [(Hs1 & Er)|Hgr].
+      + assert (Hlb : logged_before cid1 cid2 (cids lr)).
+        { apply (IH c1 W1 Hnd1 He lr EF p a q r ar cid1 cid2); auto.
+          - eapply sub_root_alive; eauto.
+          - congruence. }
+        destruct Hlb as (A & B & -> & HA & HB). exists A, (B ++ cids l1).
+        rewrite <- app_assoc. split; [reflexivity|]. split; [auto|apply in_or_app; auto].
+      + exists (cids lr), (cids l1). split; [reflexivity|]. split.
+        * apply (logged_between c1 cF lr cid2 KF' Hnd1 EF); [eapply pending_of; eauto|].
+          eapply (not_pending_if_gone c1 cF p a); eauto. apply nd_pending; auto.
+        * apply (logged_between c c1 l1 cid1 K1' Hnd E1); [eapply pending_of; eauto|].
+          eapply (not_pending_if_gone c c1 r ar); eauto. apply nd_pending; auto.
+    - (* p emptied by the first step *)
+      assert (Hlb : logged_before cid1 cid2 (cids l1)).
+      { apply (Ho x c W Hnd He1 l1 E1 p a q r ar cid1 cid2); auto. exists b1. auto. }
+      destruct Hlb as (A & B & -> & HA & HB). exists (cids lr ++ A), B.
+      rewrite <- app_assoc. split; [reflexivity|]. split; [apply in_or_app; auto|auto].
+  Qed.
+End Order.
+
+Lemma exec_order f : forall j c, wfs c -> nd c -> err (exec f j c) = false -> order_ok c (exec f j c).
+Proof.
+  induction f as [|f IH]; intros j c W Hnd He; [cbn in He; discriminate|].
+  assert (Hrel : forall dead o ow, nth_error (owners c) o = Some ow -> o_alive ow = true ->
+    let c1 := upd_owner o (clear_owner dead) c in
+    let c2 := fold_left (fun c ch => exec f (JCleanup ch) c) (o_children ow) c1 in
+    let c3 := add_log c2 (rev (map LClean (o_cleanups ow))) in
+    let c4 := fold_left (fun c k => exec f (JRemove k) c) (o_nodes ow) c3 in
+    (forall p, touched c (JCleanup o) p \/ nth_error (owners c4) p = nth_error (owners c) p) ->
+    err c4 = false -> order_ok c c4).
+  { intros dead o ow Ho Hal c1 c2 c3 c4 Hfr He4.
+    assert (Halo : alive c o = true) by (unfold alive; rewrite Ho; exact Hal).
+    assert (M1 : mono c c1) by apply mono_clear.
+    assert (M12 : mono c1 c2)
+      by (apply (mono_fold (fun ch c => exec f (JCleanup ch) c)); intros; apply exec_mono).
+    assert (M34 : mono c3 c4)
+      by (apply (mono_fold (fun k c => exec f (JRemove k) c)); intros; apply exec_mono).
+    assert (He3 : err c3 = false)
+      by (eapply (err_fold (fun k c => exec f (JRemove k) c)); [intros; apply exec_mono|exact He4]).
+    assert (He2 : err c2 = false) by exact He3.
+    assert (K12 : conserve c1 c2)
+      by (apply (conserve_fold (fun ch c => exec f (JCleanup ch) c)); intros; apply exec_conserve).
+    assert (K34 : conserve c3 c4)
+      by (apply (conserve_fold (fun k c => exec f (JRemove k) c)); intros; apply exec_conserve).
+    assert (C12 : closure c1 c2)
+      by (apply (closure_fold (fun ch c => exec f (JCleanup ch) c));
+          [intros; apply exec_mono|intros; apply exec_closure; auto|exact He2]).
+    assert (W1 : wfs c1) by (eapply wfs_mono; eauto).
+    assert (W2 : wfs c2) by (eapply wfs_mono; eauto).
+    assert (W3 : wfs c3) by (eapply wfs_mono; [apply mono_add_log|exact W2]).
+    (* nd for the intermediate states: c1 has [o]'s cleanups in flight, so only NoDup of the
+       pending part and of log ++ pending is needed, both as sub-multisets of c's *)
+    assert (Hpc : Permutation (pending c) (o_cleanups ow ++ pending c1))
+      by (apply (pending_clear (owners c) dead o ow Ho)).
+    assert (Hnd1 : nd c1).
+    { unfold nd in *. change (clog c1) with (clog c).
+      assert (P : Permutation (cids (clog c) ++ pending c)
+                              (o_cleanups ow ++ (cids (clog c) ++ pending c1))).
+      { rewrite Hpc. rewrite !app_assoc. apply Permutation_app_tail, Permutation_app_comm. }
+      eapply NoDup_app_r. eapply Permutation_NoDup; [exact P|exact Hnd]. }
+    assert (Hnd2 : nd c2) by (eapply nd_conserve; eauto).
+    destruct K12 as [P12 (lk & Ek)]. destruct K34 as [P34 (ln & En)].
+    pose proof (conj P12 (ex_intro _ lk Ek) : conserve c1 c2) as K12.
+    pose proof (conj P34 (ex_intro _ ln En) : conserve c3 c4) as K34.
+    change (clog c1) with (clog c) in Ek.
+    assert (E3 : clog c3 = rev (map LClean (o_cleanups ow)) ++ clog c2) by reflexivity.
+    (* nd c3: log gained exactly the in-flight cleanups *)
+    assert (Hnd3 : nd c3).
+    { unfold nd in *. rewrite E3, cids_app, cids_rev_clean.
+      change (pending c3) with (pending c2).
+      assert (P : Permutation (cids (clog c) ++ pending c)
+                              ((rev (o_cleanups ow) ++ cids (clog c2)) ++ pending c2)).
+      { rewrite <- app_assoc. rewrite P12. change (clog c1) with (clog c).
+        rewrite Hpc. rewrite <- Permutation_rev.
+        rewrite !app_assoc. apply Permutation_app_tail, Permutation_app_comm. }
+      eapply Permutation_NoDup; [exact P|exact Hnd]. }
+    intros l E p a q r ar cid1 cid2 Hp H2 Hg4 Hq Halq Hs Hr H1.
+    assert (El : l = ln ++ rev (map LClean (o_cleanups ow)) ++ lk).
+    { rewrite En, E3, Ek in E. rewrite !app_assoc in E. apply app_inv_tail in E.
+      rewrite <- !app_assoc in E. auto. }
+    subst l. rewrite !cids_app, cids_rev_clean.
+    destruct (Nat.eq_dec p o) as [->|Hpo].
+    - (* p = o: its children were all done before its own cleanups were logged *)
+      rewrite Ho in Hp. inversion Hp; subst a.
+      destruct (ws_child c W o ow q Ho Hq) as (Hoq & _).
+      destruct (sub_avoid c o dead q r W Hoq Hs) as (Hs1 & Er1). fold c1 in Hs1, Er1.
+      assert (Halq1 : alive c1 q = true) by (eapply sub_root_alive; eauto).
+      assert (Hgq : gone_at c2 q).
+      { destruct f as [|f'].
+        - exfalso. destruct (o_children ow) as [|x xs]; [destruct Hq|].
+          subst c3 c2. cbn [fold_left] in He2.
+          apply (err_fold (fun ch c => exec 0 (JCleanup ch) c)) in He2; [|intros; apply exec_mono].
+          cbn in He2. discriminate.
+        - apply fold_cleanup_gone; auto. }
+      assert (Hgr : gone_at c2 r) by (eapply closure_sub; eauto).
+      exists (cids ln ++ rev (o_cleanups ow)), (cids lk).
+      rewrite <- app_assoc. split; [reflexivity|]. split.
+      + apply in_or_app. right. apply in_rev in H2. exact H2.
+      + assert (Hr1 : nth_error (owners c1) r = Some ar) by (rewrite Er1; exact Hr).
+        apply (logged_between c1 c2 lk cid1 K12 Hnd1 Ek); [exact (pending_of c1 r ar cid1 Hr1 H1)|].
+        apply (not_pending_if_gone c1 c2 r ar cid1 (nd_pending _ Hnd1) M12 Hr1 H1 Hgr).
+    - (* p is below o *)
+      assert (Hsp : sub c o p).
+      { destruct (Hfr p) as [H|H]; [exact H|]. exfalso.
+        destruct Hg4 as (b & Hb & (_ & _ & Hg)). rewrite H, Hp in Hb. inversion Hb; subst.
+        rewrite Hg in H2. destruct H2. }
+      assert (Hop : o < p) by (pose proof (sub_ge c o p W Hsp); lia).
+      destruct (ws_child c W p a q Hp Hq) as (Hpq & _).
+      destruct (sub_avoid c o dead q r W ltac:(lia) Hs) as (Hs1 & Er1). fold c1 in Hs1, Er1.
+      assert (Hp1 : nth_error (owners c1) p = Some a).
+      { unfold c1, upd_owner. cbn. rewrite nth_error_upd_other; auto. }
+      assert (Halq1 : alive c1 q = true) by (eapply sub_root_alive; eauto).
+      assert (Hr1 : nth_error (owners c1) r = Some ar) by congruence.
+      destruct (mono_owner _ _ _ _ M12 Hp1) as (b2 & Hb2 & [->|(Hg2 & _)]).
+      + (* p survives the children phase: it is emptied while the nodes are removed *)
+        destruct (left_or_gone c1 c2 q r M12 C12 Hs1) as [(Hs2 & Er2)|Hgr].
+        * assert (Hlb : logged_before cid1 cid2 (cids ln)).
+          { apply (order_fold (fun k c => exec f (JRemove k) c) (o_nodes ow)
+                     (fun x c => exec_mono f (JRemove x) c)
+                     (fun x c => exec_conserve f (JRemove x) c)
+                     (fun x c => exec_closure f (JRemove x) c)
+                     (fun x c => IH (JRemove x) c) c3 W3 Hnd3 He4 ln En p a q r ar cid1 cid2); auto.
+            - eapply sub_root_alive. apply (sub_owners_eq c2 c3); [reflexivity|exact Hs2].
+            - apply (sub_owners_eq c2 c3); [reflexivity|exact Hs2].
+            - change (owners c3) with (owners c2). congruence. }
+          destruct Hlb as (A & B & -> & HA & HB).
+          exists A, (B ++ rev (o_cleanups ow) ++ cids lk). rewrite <- !app_assoc.
+          split; [reflexivity|]. split; [auto|apply in_or_app; auto].
+        * exists (cids ln), (rev (o_cleanups ow) ++ cids lk). split; [reflexivity|]. split.
+          -- assert (Hp3 : nth_error (owners c3) p = Some a) by exact Hb2.
+             apply (logged_between c3 c4 ln cid2 K34 Hnd3 En); [exact (pending_of c3 p a cid2 Hp3 H2)|].
+             apply (not_pending_if_gone c3 c4 p a cid2 (nd_pending _ Hnd3) M34 Hp3 H2 Hg4).
+          -- apply in_or_app. right.
+             apply (logged_between c1 c2 lk cid1 K12 Hnd1 Ek); [exact (pending_of c1 r ar cid1 Hr1 H1)|].
+             apply (not_pending_if_gone c1 c2 r ar cid1 (nd_pending _ Hnd1) M12 Hr1 H1 Hgr).
+      + (* p is emptied during the children phase *)
+        assert (Hlb : logged_before cid1 cid2 (cids lk)).
+        { apply (order_fold (fun ch c => exec f (JCleanup ch) c) (o_children ow)
+                   (fun x c => exec_mono f (JCleanup x) c)
+                   (fun x c => exec_conserve f (JCleanup x) c)
+                   (fun x c => exec_closure f (JCleanup x) c)
+                   (fun x c => IH (JCleanup x) c) c1 W1 Hnd1 He2 lk Ek p a q r ar cid1 cid2); auto.
+          exists b2. auto. }
+        destruct Hlb as (A & B & -> & HA & HB).
+        exists (cids ln ++ rev (o_cleanups ow) ++ A), B. rewrite <- !app_assoc.
+        split; [reflexivity|]. split; [|auto]. apply in_or_app. right. apply in_or_app. right.
+        exact HA. }
+  destruct j as [o|o|k].
+  - pose proof (exec_frame_or (S f) (JCleanup o) c W) as Hfr. cbn [exec] in *.
+    destruct (nth_error (owners c) o) as [ow|] eqn:Ho.
+    2: { intros l E p a q r ar cid1 cid2 Hp H2 (b & Hb & (_ & _ & Hg)).
+         rewrite Hp in Hb. inversion Hb; subst. rewrite Hg in H2. destruct H2. }
+    destruct (o_alive ow) eqn:Hal.
+    2: { intros l E p a q r ar cid1 cid2 Hp H2 (b & Hb & (_ & _ & Hg)).
+         rewrite Hp in Hb. inversion Hb; subst. rewrite Hg in H2. destruct H2. }
+    apply (Hrel false o ow); auto.
+  - pose proof (exec_frame_or (S f) (JDrop o) c W) as Hfr. cbn [exec] in *.
+    destruct (nth_error (owners c) o) as [ow|] eqn:Ho.
+    2: { intros l E p a q r ar cid1 cid2 Hp H2 (b & Hb & (_ & _ & Hg)).
+         rewrite Hp in Hb. inversion Hb; subst. rewrite Hg in H2. destruct H2. }
+    destruct (o_alive ow) eqn:Hal.
+    2: { intros l E p a q r ar cid1 cid2 Hp H2 (b & Hb & (_ & _ & Hg)).
+         rewrite Hp in Hb. inversion Hb; subst. rewrite Hg in H2. destruct H2. }
+    apply (Hrel true o ow); auto.
+  - cbn [exec] in *.
+    assert (Hown : owners (snd (remove k c)) = owners c) by (unfold remove; destruct (get c k); reflexivity).
+    assert (Hlog : clog (snd (remove k c)) = clog c) by (unfold remove; destruct (get c k); reflexivity).
+    pose proof (mono_remove k c) as Hm.
+    assert (Hsame : order_ok c (snd (remove k c))).
+    { intros l E p a q r ar cid1 cid2 Hp H2 (b & Hb & (_ & _ & Hg)).
+      rewrite Hown, Hp in Hb. inversion Hb; subst. rewrite Hg in H2. destruct H2. }
+    destruct (remove k c) as [[it|] c'']; cbn in Hown, Hlog, Hm, Hsame; [|exact Hsame].
+    destruct it as [h|e|m mo]; try exact Hsame.
+    assert (W'' : wfs c'') by (eapply wfs_mono; eauto).
+    assert (Hnd'' : nd c'') by (unfold nd, pending in *; rewrite Hown, Hlog; exact Hnd).
+    pose proof (IH (JDrop mo) c'' W'' Hnd'' He) as Hok.
+    intros l E p a q r ar cid1 cid2 Hp H2 Hg Hq Hal Hs Hr H1.
+    apply (Hok l (eq_trans E (f_equal (app l) (eq_sym Hlog))) p a q r ar cid1 cid2);
+      try (rewrite Hown); auto.
+    + unfold alive in *. rewrite Hown. exact Hal.
+    + apply (sub_owners_eq c c''); auto.
+Qed.
+
+(** descendants_first: within one cleanup, every cleanup of a scope below a child of [p] runs
+    before the cleanups of [p] itself — for every [p] of the subtree *)
+Theorem descendants_first : forall c o, wfs c -> nd c -> err c = false -> alive c o = true ->
+  forall l, clog (cleanup o c) = l ++ clog c ->
+  forall p a q r ar cid1 cid2,
+    sub c o p -> nth_error (owners c) p = Some a -> In cid2 (o_cleanups a) ->
+    In q (o_children a) -> alive c q = true -> sub c q r ->
+    nth_error (owners c) r = Some ar -> In cid1 (o_cleanups ar) ->
+    logged_before cid1 cid2 (cids l).
+Proof.
+  intros c o W Hnd He Ho l E p a q r ar cid1 cid2 Hs Hp H2 Hq Hal Hsr Hr H1.
+  assert (Hne : err (cleanup o c) = false) by (apply cleanup_no_err; auto).
+  apply (exec_order (fuel_of c) (JCleanup o) c W Hnd Hne l E p a q r ar cid1 cid2); auto.
+  exact (proj1 (subtree_released c o W He Ho p a Hs Hp)).
+Qed.
+
+(** * frame for arena values *)
+Definition key_touched (c : core) (j : job) (k : key) : Prop :=
+  match j with
+  | JCleanup o | JDrop o =>
+      exists p ow, sub c o p /\ nth_error (owners c) p = Some ow /\ In k (o_nodes ow)
+  | JRemove k' =>
+      k = k' \/ exists m mo p ow, get c k' = Some (IMemo m mo) /\ sub c mo p /\
+                                  nth_error (owners c) p = Some ow /\ In k (o_nodes ow)
+  end.
+
+Lemma key_eq_dec : forall a b : key, {a = b} + {a <> b}.
+Proof. decide equality; apply Nat.eq_dec. Qed.
+
+Lemma get_remove_other k k' c : k <> k' -> get (snd (remove k' c)) k = get c k.
+Proof.
+  intros Hne. unfold remove. destruct (get c k') eqn:Hg'; [|reflexivity]. cbn.
+  unfold get in *. cbn. destruct (Nat.eq_dec (fst k) (fst k')) as [Ef|Ef].
+  - rewrite Ef, nth_error_upd_same. destruct (nth_error (slots c) (fst k')) as [s|]; [|reflexivity].
+    cbn [option_map s_ver s_item].
+    destruct (Nat.eqb_spec (s_ver s) (snd k')) as [Ev|]; [|discriminate].
+    destruct (Nat.eqb_spec (s_ver s) (snd k)) as [Ev2|].
+    + exfalso. apply Hne. destruct k, k'; cbn in *; congruence.
+    + destruct (S (s_ver s) =? snd k); reflexivity.
+  - rewrite nth_error_upd_other; auto.
+Qed.
+
+Lemma sub_mono_owner c c' o p ow : mono c c' -> sub c' o p -> nth_error (owners c') p = Some ow ->
+  o_nodes ow <> [] -> nth_error (owners c) p = Some ow.
+Proof.
+  intros M _ Hp Hne. destruct (mono_owner_r _ _ _ _ M Hp) as (a & Ha & [->|((_ & Hg & _) & _)]); auto.
+  contradiction.
+Qed.
+
+Lemma exec_get_or f : forall j c, wfs c -> forall k,
+  key_touched c j k \/ get (exec f j c) k = get c k.
+Proof.
+  induction f as [|f IH]; intros j c W k; [right; reflexivity|].
+  assert (Hrel : forall dead o ow, nth_error (owners c) o = Some ow -> o_alive ow = true ->
+    (exists p ow, sub c o p /\ nth_error (owners c) p = Some ow /\ In k (o_nodes ow)) \/
+    get (fold_left (fun c k => exec f (JRemove k) c) (o_nodes ow)
+           (add_log (fold_left (fun c ch => exec f (JCleanup ch) c) (o_children ow)
+                       (upd_owner o (clear_owner dead) c))
+                    (rev (map LClean (o_cleanups ow))))) k = get c k).
+  { intros dead o ow Ho Hal.
+    assert (Halo : alive c o = true) by (unfold alive; rewrite Ho; exact Hal).
+    destruct (in_dec key_eq_dec k (o_nodes ow)) as [Hin|Hnin].
+    { left. exists o, ow. split; [apply sub_refl; auto|auto]. }
+    set (c1 := upd_owner o (clear_owner dead) c).
+    assert (M1 : mono c c1) by apply mono_clear.
+    assert (Hlift : forall c' x p b, mono c c' -> In x (o_children ow) -> sub c' x p ->
+              nth_error (owners c') p = Some b -> In k (o_nodes b) ->
+              exists p ow, sub c o p /\ nth_error (owners c) p = Some ow /\ In k (o_nodes ow)).
+    { intros c' x p b M' Hx Hs Hb Hk. exists p, b. split; [|split; [|exact Hk]].
+      - apply (sub_mono _ _ _ _ M') in Hs. eapply sub_trans; [|exact Hs].
+        eapply sub_child; eauto. eapply sub_root_alive; eauto.
+      - eapply sub_mono_owner; eauto. intros E. rewrite E in Hk. destruct Hk. }
+    assert (Hkids : forall xs c', mono c c' -> get c' k = get c k -> incl xs (o_children ow) ->
+              let c'' := fold_left (fun c ch => exec f (JCleanup ch) c) xs c' in
+              (exists p ow, sub c o p /\ nth_error (owners c) p = Some ow /\ In k (o_nodes ow)) \/
+              (mono c c'' /\ get c'' k = get c k)).
+    { induction xs as [|x xs IHx]; intros c' M' E' Hin; cbn [fold_left]; [right; auto|].
+      destruct (IH (JCleanup x) c' (wfs_mono _ _ M' W) k) as [(p & b & Hs & Hb & Hk)|Hu].
+      - left. eapply Hlift; eauto. apply Hin. left. reflexivity.
+      - apply IHx.
+        + eapply mono_trans; [exact M'|apply exec_mono].
+        + rewrite Hu. exact E'.
+        + intros y Hy. apply Hin. right. exact Hy. }
+    destruct (Hkids (o_children ow) c1 M1 eq_refl (incl_refl _)) as [H|(M2 & E2)]; [left; exact H|].
+    set (c2 := fold_left (fun c ch => exec f (JCleanup ch) c) (o_children ow) c1) in *.
+    set (c3 := add_log c2 (rev (map LClean (o_cleanups ow)))).
+    assert (M3 : mono c c3) by (eapply mono_trans; [exact M2|apply mono_add_log]).
+    assert (Hnodes : forall xs c', mono c c' -> get c' k = get c k -> incl xs (o_nodes ow) ->
+              (exists p ow, sub c o p /\ nth_error (owners c) p = Some ow /\ In k (o_nodes ow)) \/
+              get (fold_left (fun c k => exec f (JRemove k) c) xs c') k = get c k).
+    { induction xs as [|x xs IHx]; intros c' M' E' Hin; cbn [fold_left]; [right; auto|].
+      destruct (IH (JRemove x) c' (wfs_mono _ _ M' W) k) as [[->|(m & mo & p & b & Hg & Hs & Hb & Hk)]|Hu].
+      - exfalso. apply Hnin. apply Hin. left. reflexivity.
+      - left. destruct (mono_get c c' x M') as [E|E]; [|congruence]. rewrite Hg in E.
+        pose proof (ws_memo c W o ow x m mo Ho (Hin x (or_introl eq_refl)) (eq_sym E)) as Hmo.
+        eapply Hlift; eauto.
+      - apply IHx.
+        + eapply mono_trans; [exact M'|apply exec_mono].
+        + rewrite Hu. exact E'.
+        + intros y Hy. apply Hin. right. exact Hy. }
+    apply Hnodes; auto. apply incl_refl. }
+  destruct j as [o|o|k']; cbn [exec key_touched] in *.
+  - destruct (nth_error (owners c) o) as [ow|] eqn:Ho; [|right; reflexivity].
+    destruct (o_alive ow) eqn:Hal; [apply Hrel; auto|right; reflexivity].
+  - destruct (nth_error (owners c) o) as [ow|] eqn:Ho; [|right; reflexivity].
+    destruct (o_alive ow) eqn:Hal; [apply Hrel; auto|right; reflexivity].
+  - destruct (Nat.eq_dec (fst k) (fst k')) as [E1|N1]; [destruct (Nat.eq_dec (snd k) (snd k')) as [E2|N2]|].
+    + left. left. destruct k, k'; cbn in *; congruence.
+    + assert (Hne : k <> k') by (intros ->; auto).
+      pose proof (get_remove_other k k' c Hne) as Hg.
+      pose proof (mono_remove k' c) as Hm.
+      assert (Hit : fst (remove k' c) = get c k') by (unfold remove; destruct (get c k'); reflexivity).
+      assert (Hown : owners (snd (remove k' c)) = owners c) by (unfold remove; destruct (get c k'); reflexivity).
+      destruct (remove k' c) as [[it|] c'']; cbn in Hg, Hm, Hit, Hown; [|right; exact Hg].
+      destruct it as [h|e|m mo]; try (right; exact Hg).
+      destruct (IH (JDrop mo) c'' (wfs_mono _ _ Hm W) k) as [(p & b & Hs & Hb & Hk)|Hu].
+      * left. right. exists m, mo, p, b. rewrite <- Hown. split; [auto|]. split; [|auto].
+        eapply sub_mono; eauto.
+      * right. rewrite Hu. exact Hg.
+    + assert (Hne : k <> k') by (intros ->; auto).
+      pose proof (get_remove_other k k' c Hne) as Hg.
+      pose proof (mono_remove k' c) as Hm.
+      assert (Hit : fst (remove k' c) = get c k') by (unfold remove; destruct (get c k'); reflexivity).
+      assert (Hown : owners (snd (remove k' c)) = owners c) by (unfold remove; destruct (get c k'); reflexivity).
+      destruct (remove k' c) as [[it|] c'']; cbn in Hg, Hm, Hit, Hown; [|right; exact Hg].
+      destruct it as [h|e|m mo]; try (right; exact Hg).
+      destruct (IH (JDrop mo) c'' (wfs_mono _ _ Hm W) k) as [(p & b & Hs & Hb & Hk)|Hu].
+      * left. right. exists m, mo, p, b. rewrite <- Hown. split; [auto|]. split; [|auto].
+        eapply sub_mono; eauto.
+      * right. rewrite Hu. exact Hg.
+Qed.
+
+(** frame: a value registered with no owner of the subtree is untouched by the cleanup *)
+Theorem outside_values_untouched : forall c o, wfs c -> forall k,
+  (forall p ow, sub c o p -> nth_error (owners c) p = Some ow -> ~ In k (o_nodes ow)) ->
+  get (cleanup o c) k = get c k.
+Proof.
+  intros c o W k H. destruct (exec_get_or (fuel_of c) (JCleanup o) c W k) as [(p & ow & Hs & Hp & Hk)|E];
+    [|exact E]. exfalso. exact (H p ow Hs Hp Hk).
+Qed.
